@@ -34,10 +34,32 @@ type RuleOutcome = RuleResult | ParseException
 type MemoCache = dict[MemoKey, RuleOutcome]
 
 
-@cache
+class _SemanticsRef:
+    # NOTE: the cache below is keyed by the identity of the semantics object,
+    #   never by its own __eq__/__hash__ (it may be unhashable, or equal to
+    #   another object with different actions); holding the object here keeps
+    #   its id() from being reused while the entry exists
+    __slots__ = ('semantics',)
+
+    def __init__(self, semantics: Any) -> None:
+        self.semantics = semantics
+
+    def __hash__(self) -> int:
+        return id(self.semantics)
+
+    def __eq__(self, other: object) -> bool:
+        return isinstance(other, _SemanticsRef) and self.semantics is other.semantics
+
+
 def find_cached_semantic_action(semantics: Any, name: str) -> Callable[..., Any] | None:
     if semantics is None:
         return None
+    return _find_cached_semantic_action(_SemanticsRef(semantics), name)
+
+
+@cache
+def _find_cached_semantic_action(ref: _SemanticsRef, name: str) -> Callable[..., Any] | None:
+    semantics = ref.semantics
 
     for rulename in (name, safe_name(name), name.strip('_'), f'_{name}', f'_{name}_'):
         action = getattr(semantics, safe_name(rulename), None)
